@@ -278,6 +278,84 @@ Proof.
   rewrite fold_left_app, fold_writes. reflexivity.
 Qed.
 
+(* ---------------------------------------------------------------- a step that returns an error *)
+
+Lemma run_pstep_keeps_disk st p : p <> PRename -> p_disk (run_pstep st p) = p_disk st.
+Proof. destruct p, (p_tmp st) eqn:E; unfold run_pstep; rewrite ?E; cbn; congruence. Qed.
+
+Lemma fold_no_rename l st : ~ In PRename l -> p_disk (fold_left run_pstep l st) = p_disk st.
+Proof.
+  revert st; induction l as [|p l IH]; intros st H; cbn; [reflexivity|].
+  rewrite IH by (intros X; apply H; now right).
+  apply run_pstep_keeps_disk. intros ->. apply H. now left.
+Qed.
+
+Lemma in_firstn_in {A} (x : A) k l : In x (firstn k l) -> In x l.
+Proof.
+  revert k; induction l as [|y l IH]; intros [|k]; cbn; try easy.
+  intros [->|H]; [now left|right; eauto].
+Qed.
+
+Lemma persist_steps_split s :
+  persist_steps s = (PCreate :: map PWrite (chunks_of s) ++ [PSync; PClose]) ++ [PRename].
+Proof. rewrite persist_steps_eq. cbn. now rewrite <- app_assoc. Qed.
+
+Lemma no_rename_before_last s k :
+  (k < length (persist_steps s))%nat -> ~ In PRename (firstn k (persist_steps s)).
+Proof.
+  rewrite persist_steps_split, app_length. intros Hk.
+  rewrite firstn_app. replace (k - _)%nat with O by (cbn [length] in *; lia). cbn [firstn]. rewrite app_nil_r.
+  intros H. apply in_firstn_in, in_inv in H. destruct H as [H|H]; [discriminate|].
+  apply in_app_iff in H as [H|[H|[H|[]]]]; try discriminate.
+  apply in_map_iff in H as (c & Hc & _). discriminate.
+Qed.
+
+(* io_error_leaves_previous_file: whichever step of persist() returns an error —
+   CreateTemp, any write (after any number of bytes), Sync, Close, Rename — the
+   directory is exactly what it was: `local` untouched, no temp file left *)
+Lemma fail_at_leaves_disk d s k j :
+  (k < length (persist_steps s))%nat -> fail_at d s k j = d.
+Proof.
+  intros Hk. unfold fail_at, remove_tmp.
+  pose proof (fold_no_rename _ (mk_pstate d None) (no_rename_before_last s k Hk)) as E. cbn in E.
+  destruct (nth_error (persist_steps s) k) as [p|] eqn:En.
+  - destruct p, (p_tmp (fold_left run_pstep (firstn k (persist_steps s)) (mk_pstate d None))); cbn; exact E.
+  - apply nth_error_None in En. lia.
+Qed.
+
+(* and with no step failing it is the complete run *)
+Lemma fail_at_none d s k j :
+  (length (persist_steps s) <= k)%nat -> fail_at d s k j = mk_disk (Some (snap_bytes s)) (d_temps d).
+Proof.
+  intros Hk. unfold fail_at. rewrite (proj2 (nth_error_None _ _) Hk), firstn_all2 by exact Hk.
+  apply persist_completes.
+Qed.
+
+(* the named steps are steps of persist(s) *)
+Lemma fault_step_in_range s which : (which < 4)%nat -> (fault_step s which < length (persist_steps s))%nat.
+Proof.
+  intros H. unfold fault_step, persist_steps. generalize (snap_lines s) as L. intros L.
+  cbn [length]. rewrite app_length, map_length. cbn [length].
+  unfold str in *. destruct which as [|w]; lia.
+Qed.
+
+Lemma io_error_steps_cover_lemma d s :
+  (forall which, (which < 4)%nat -> fail_at d s (fault_step s which) 0 = d) /\
+  (forall k j, (length (persist_steps s) <= k)%nat -> fail_at d s k j = mk_disk (Some (snap_bytes s)) (d_temps d)).
+Proof.
+  split.
+  - intros which H. apply fail_at_leaves_disk, fault_step_in_range, H.
+  - intros k j. apply fail_at_none.
+Qed.
+
+(* non-vacuous: previous file {com.}, new snapshot {com., x.test.}: Sync is step 4 of 6 *)
+Example io_error_example :
+  let d := mk_disk (Some (lines_bytes [header; [99;111;109;46]])) [] in
+  let s := mk_snap 2 [[99;111;109;46]; [120;46;116;101;115;116;46]] [] in
+  fault_step s 1 = 4%nat /\ length (persist_steps s) = 7%nat /\
+  fail_at d s 4 0 = d /\ fail_at d s 2 3 = d /\ d_local (fail_at d s 7 0) = Some (snap_bytes s).
+Proof. cbn. repeat split; reflexivity. Qed.
+
 (* The restart (what "leaves the previous complete file rather than a partial one"
    is for): whatever the crash point and whatever older leftovers lie in the
    directory, loadInitial loads the previous file or the complete new one — the
